@@ -44,6 +44,8 @@ PREDS = {'pos': pos, 'boom': boom}
 
 def bt(t):
     k = t[0]
+    if k == 'f' and t[1] == 'nan':
+        return float('nan')
     if k in ('i', 's', 'f'):
         return t[1]
     if k == 'n':
@@ -86,7 +88,7 @@ def bp(p):
     if k == 'pred':
         return PREDS[p[1]]
     if k == 'M':
-        return {'>': M > p[2], '==': M == p[2], '<': M < p[2]}[p[1]]
+        return {'>': M > p[2], '==': M == p[2], '<': M < p[2], '>=': M >= p[2], '<=': M <= p[2], '!=': M != p[2]}[p[1]]
     if k == 'and':
         return And(*[bp(x) for x in p[1]])
     if k == 'or':
@@ -105,7 +107,7 @@ def bp(p):
         d = {}
         for key, val in p[1]:
             if key[0] == 'opt':
-                kk = Optional(key[1]) if len(key) < 3 else Optional(key[1], default=key[2])
+                kk = Optional(key[1]) if len(key) < 3 else Optional(key[1], default=json.loads(json.dumps(key[2])))
             elif key[0] == 'req':
                 kk = Required(bp(key[1]))
             else:
@@ -113,6 +115,31 @@ def bp(p):
             d[kk] = bp(val)
         return d
     raise AssertionError(p)
+
+
+def same(a, b):
+    return a == b or repr(a) == repr(b)      # nan is not equal to itself
+
+
+def scribble(v, seen=None):
+    """modify every mutable container reachable from a result, in place"""
+    seen = set() if seen is None else seen
+    if id(v) in seen:
+        return
+    seen.add(id(v))
+    if isinstance(v, dict):
+        for x in list(v.values()):
+            scribble(x, seen)
+        v['__scribbled__'] = 1
+    elif isinstance(v, list):
+        for x in v:
+            scribble(x, seen)
+        v.append('__scribbled__')
+    elif isinstance(v, (tuple, frozenset)):
+        for x in v:
+            scribble(x, seen)
+    elif isinstance(v, set):
+        v.add('__scribbled__')
 
 
 class Fail(Exception):
@@ -147,7 +174,7 @@ def ref(p, t):
     if k == 'M':
         import operator
         try:
-            ok = {'>': operator.gt, '==': operator.eq, '<': operator.lt}[p[1]](t, p[2])
+            ok = {'>': operator.gt, '==': operator.eq, '<': operator.lt, '>=': operator.ge, '<=': operator.le, '!=': operator.ne}[p[1]](t, p[2])
         except TypeError:
             raise Fail('py:TypeError')
         if not ok:
@@ -233,7 +260,7 @@ def ref(p, t):
                 raise Fail('other')
         for name, dv in defaults:
             if name not in result:
-                result[name] = dv
+                result[name] = json.loads(json.dumps(dv))
         if required:
             raise Fail('other')
         return result
@@ -339,7 +366,7 @@ def mutations(t):
 
 
 UNRELATED = [['i', 1], ['s', 'a'], ['n'], ['l', []], ['d', []], ['t', []], ['l', [['i', 1]]], ['d', [[['s', 'k'], ['i', 1]]]],
-             ['t', [['i', 1], ['s', 'a']]], ['S', [['i', 1]]], ['f', 2.5], ['S', []], ['F', [['s', 'a']]], ['i', -3], ['s', 'aaa']]
+             ['t', [['i', 1], ['s', 'a']]], ['S', [['i', 1]]], ['f', 2.5], ['S', []], ['F', [['s', 'a']]], ['i', -3], ['s', 'aaa'], ['f', 'nan'], ['i', 0]]
 
 
 def targets_for(p):
@@ -388,7 +415,7 @@ def run_case(case):
     if want[0] == 'ok':
         if got[0] != 'ok':
             return R({'expected': 'match succeeds with %r' % (want_val,), 'observed': 'raised %r' % (got[1],), **where}, oc)
-        if not (got[1] == want_val and type(got[1]) is type(want_val)) and not (isinstance(want_val, dict) and dict(got[1]) == want_val):
+        if not (same(got[1], want_val) and type(got[1]) is type(want_val)) and not (isinstance(want_val, dict) and same(dict(got[1]), want_val)):
             return R({'expected': 'returns %r' % (want_val,), 'observed': 'returns %r' % (got[1],), **where}, oc)
     else:
         if got[0] == 'ok':
@@ -402,6 +429,17 @@ def run_case(case):
                 return R({'expected': 'MatchError', 'observed': '%s %r' % (type(e).__name__, e), **where}, oc)
             if want[1] == 'type' and not (isinstance(e, TypeMatchError) and isinstance(e, TypeError)):
                 return R({'expected': 'TypeMatchError (also a TypeError)', 'observed': '%s %r' % (type(e).__name__, e), **where}, oc)
+    if want[0] == 'ok' and p[0] not in ('lit', 'type', 'regex', 'pred', 'M'):
+        # history: the caller modifies the first result, then the SAME Match object is used again
+        scribble(got[1])
+        try:
+            res2 = glom(bt(tt), spec)
+        except Exception as e:
+            res2 = e
+        want2 = ref(p, bt(tt))
+        if isinstance(res2, Exception) or not (same(res2, want2) or (isinstance(want2, dict) and same(dict(res2), want2))):
+            return R({'expected': 'second use of the same Match object returns %r again' % (want2,), 'observed': repr(res2),
+                      'history': 'first result modified in place by the caller', **where}, oc)
     # matches() / verify() / default agree
     py = want[0] == 'fail' and want[1].startswith('py:')
     if not py:
@@ -432,7 +470,7 @@ def run_case(case):
 # ------------------------------------------------------------------ pattern generator
 
 LEAVES = [['lit', 1], ['lit', 'a'], ['lit', None], ['type', 'int'], ['type', 'str'], ['type', 'object'],
-          ['regex', 'a+'], ['pred', 'pos'], ['pred', 'boom'], ['M', '>', 0], ['M', '==', 'a'],
+          ['regex', 'a+'], ['pred', 'pos'], ['pred', 'boom'], ['M', '>', 0], ['M', '==', 'a'], ['M', '>=', 0], ['M', '<=', 0.5], ['M', '!=', 'a'],
           ['and', [['type', 'int'], ['M', '>', 0]]], ['or', [['type', 'int'], ['type', 'str']]], ['or', [['lit', 1], ['lit', 'a']]],
           ['not', ['type', 'str']], ['not', ['lit', 1]]]
 HASHABLE_KEYS = [['lit', 'k'], ['lit', 1], ['type', 'str'], ['type', 'int'], ['type', 'object'], ['regex', 'k+'],
@@ -461,6 +499,8 @@ def containers(kids, wide):
         out.append(['dict', [[['type', 'str'], a]]])
         out.append(['dict', [[['opt', 'k'], a]]])
         out.append(['dict', [[['opt', 'k', 7], a]]])
+        out.append(['dict', [[['opt', 'k', []], a]]])
+        out.append(['dict', [[['opt', 'j', {'d': [1]}], ['type', 'object']], [['lit', 'k'], a]]])
         out.append(['dict', [[['req', ['type', 'str']], a]]])
         out.append(['dict', [[['type', 'object'], a]]])
     for a in k2:
